@@ -9,7 +9,7 @@
 From Common Require Import Bytes Outcome Blake2b.
 From TrieCodec Require Import Codec View Db ProofsBasic ProofsDecode ProofsDb ProofsWrite.
 From TrieCodec Require Import ProofsLookup.
-From C04 Require Import Model Proofs ProofsAll ProofsNorm Examples.
+From C04 Require Import Model Proofs ProofsAll ProofsNorm ProofsDiscipline Examples.
 Local Open Scope N_scope.
 
 (* Reload: if the database holds what the trie t needs (every non-inlined node under its hash, every
@@ -100,6 +100,42 @@ Proof.
   - intro key. exact (get_from_db_has H Hlen st dfix (erase w) d' key W Hall Hne).
 Qed.
 Print Assumptions C04_history_reads.
+
+(* The Dirty-flag discipline tied to histories.  C04_history assumes per write that the skipped clean
+   subtrees are already stored (the `chain` hypothesis).  That follows from a syntactic contract with
+   the trie mutation code: in every trie handed to WriteDirty, a node is clean only if it is — with
+   all its fields and descendants — a node of a trie persisted earlier in the history or of the
+   persisted state P the history starts from ([parts] lists the nodes WriteDirty skips, [covered]
+   says they are persisted nodes or need nothing, [dchain] is a history honouring the contract,
+   [inv P d] says the database d holds what the initial parts P need).  Every such history is a
+   chain, and every trie of it reloads identically and reads back key by key.  G is any finite set
+   of strings containing those written, skipped and needed, on which H does not collide.
+   The driver evaluates the contract on every tree of every run (tag discipline-checked). *)
+Theorem C04_discipline_chain :
+  forall (H : list byte -> list byte), (forall x, length (H x) = 32%nat) ->
+  forall G, H_inj_on H G ->
+  forall P d ws d', dchain H P d ws d' ->
+  Forall (fun w => incl (wstrings H w) G) ws -> incl (pstrings H P) G -> inv H P d ->
+  chain H d ws d'.
+Proof. exact dchain_chain. Qed.
+Print Assumptions C04_discipline_chain.
+
+Theorem C04_discipline_reads :
+  forall (H : list byte -> list byte), (forall x, length (H x) = 32%nat) ->
+  forall G st dfix P d ws d',
+  H_inj_on H G -> dchain H P d ws d' ->
+  Forall (fun w => incl (wstrings H w) G) ws -> incl (pstrings H P) G -> inv H P d ->
+  forall w, In w ws -> wf_node (erase w) = true -> H (encode H (erase w)) <> empty_root H ->
+     load H st dfix (height (erase w)) d' (H (encode H (erase w))) = Ok (Some (erase w))
+  /\ forall key, get_from_db_fixed H st dfix d' (H (encode H (erase w))) key
+                 = Ok (lookup (erase w) (nibbles_of_bytes key)).
+Proof. exact discipline_reads. Qed.
+Print Assumptions C04_discipline_reads.
+
+Example C04_discipline_nonvacuous :
+     parts blake2b_256 true ex_block2 = [(false, TN [] (Some v33) false [])]
+  /\ exists d', dchain blake2b_256 [] [] [ex_diverge; ex_block2] d'.
+Proof. exact C04_discipline_nonvacuous_holds. Qed.
 
 (* Reachable states that are not wf_node: deleting the value of a V1 branch leaves MustBeHashed set
    on a node without value (wf_node forbids that).  [norm] clears such stale flags.  The history
